@@ -17,10 +17,10 @@ def save_record(pid, rec_path, rid):
             open(dest, 'w').write(l); break
     return dest
 
-def run_sat(pid, tier, seed, mcs, runs, module, nontrivial, assumptions, extra_core=None, real=False):
+def run_sat(pid, tier, seed, mcs, runs, module, nontrivial, assumptions, extra_core=None, real=False, inproc=True):
     t0 = time.time()
     thorough = tier == 'thorough'
-    V.build_harness(real=real)
+    V.build_harness(real=real, inproc=inproc)
     work = V.WORK + '/' + pid
     os.makedirs(work, exist_ok=True)
     states = transitions = 0
@@ -112,7 +112,7 @@ def c19(tier, seed):
         lambda th, s: [['serve', '--n', '40' if th else '4', '--seed', str(s), '--dir', V.WORK + '/realfs', '--bin', V.REAL_BIN]],
         'ServerTrace', lambda r: r.get('kind') in ('files', 'rules'),
         ['ruler directories produced by the real binary with shell commands on the real file system', 'requests are legal HTTP/1.1 request lines (non-ASCII percent-encoded)',
-         'the harness decides the class of each request (well-formed hash, cached, recorded) with its own base-62 / bincode decoders'], real=True)
+         'the harness decides the class of each request (well-formed hash, cached, recorded) with its own base-62 / bincode decoders'], real=True, inproc=False)
 
 def realfs_records(tier, seed):
     """C10 on the real file system: returns (n records, violations)"""
